@@ -92,6 +92,9 @@ def generate_econ_misuse(seed, S):
         main_i = [i for i, o in enumerate(ops) if o['op'] == 'main'][0]
         pos = main_i
     ops = ops[0:pos] + extra + ops[pos:]
+    if kind in ('no_supplier', 'ambiguous_supplier', 'cross_currency_no_ext') and S['faults'].random() < 0.5:
+        # the caller catches the rejection and simply runs the same model again: it is still ill-formed
+        ops.append({'op': 'main', 'model': info['model']})
     return {'kind': 'ECON_MISUSE', 'profile': 'econ_misuse', 'ops': ops, 'expect': {'misuse': kind, 'demander': e['hh']},
             'block': {'eqs': [], 'lags': [], 'ics': [], 'exo': [], 'maxtime': 2, 'err_tol': None}, 'knobs': {}, 'drive': 'mono',
             'faults': [], 'meta': {}}
@@ -104,6 +107,8 @@ def execute_econ_misuse(case):
     kind = case['expect']['misuse']
     stats = {'runs': 1, 'profile': {'econ_misuse': 1}, 'probes': {'econ_misuse_' + kind: 1}, 'outcome': {}}
     mh = [o['model'] for o in case['ops'] if o['op'] == 'main'][0]
+    if len([o for o in case['ops'] if o['op'] == 'main']) > 1:
+        stats['probes']['rejected_model_run_again'] = 1
     out, msg = econ.model_outcome(sess, mh)
     rejected_at = 'declaration' if sess.errors and sess.errors[0][1]['op'] != 'main' else ('main' if out != 'ok' else None)
     stats['misuse_rejected_with'] = {(sess.errors[0][2] if sess.errors else out): 1}
@@ -126,7 +131,7 @@ def execute_econ_misuse(case):
 def generate(seed, tier):
     S = core.Streams(seed)
     r = S['swarm'].random()
-    if r > 0.97:
+    if r > 0.95:
         return generate_econ_misuse(seed, S)
     if r < 0.25:
         # success direction: plain contraction, default cap, tolerance >= 1e-8, no faults
